@@ -241,7 +241,7 @@ impl EndpointConfigBuilder {
     hint_c = ('X6', 'let mut client = quinn::ClientConfig::new(', 'assert(client_crypto.tls@.versions[0] == TlsVersion::TLS13); /* proof hint: TLS 1.3 is offered */\n        ', 'before')
     t += C.fn(CFG, 'impl EndpointConfigBuilder :: fn client_config', 'EndpointConfigBuilder::client_config', ['C01', 'C03'], ret='r', rewrites=tyrw, inserts=[hint_c], spec='''
     ensures
-        r is Ok ==> r->Ok_0.tls@.verifier == InstalledVerifier::Base(*cert_verifier), // @OBL EndpointConfigBuilder::client_config::installs_the_given_verifier [C01,C03] the client TLS configuration checks server certificates with exactly the verifier it is given (anemo's CertVerifier), nothing else
+        r is Ok ==> r->Ok_0.tls@.verifier == InstalledVerifier::Base(*cert_verifier), // @OBL EndpointConfigBuilder::client_config::installs_the_given_verifier [C01,C03,C14] the client TLS configuration checks server certificates with exactly the verifier it is given (anemo's CertVerifier), nothing else
         r is Ok ==> r->Ok_0.tls@.chain == seq![cert] && r->Ok_0.tls@.key == pkcs8_der && key_fits(cert, pkcs8_der), // @OBL EndpointConfigBuilder::client_config::presents_own_certificate [C01] a dialer presents exactly the node's own certificate and signs the handshake with the matching private key
         r is Ok ==> r->Ok_0.tls@.versions =~= only_tls13(), // @OBL EndpointConfigBuilder::client_config::tls13_only [C01] TLS 1.3 only
 ''')
@@ -249,11 +249,11 @@ impl EndpointConfigBuilder {
               transforms=[name_closure_params, for_tuple_pattern('(*key).of == pkcs8_der, forall|n: Seq<char>| server_cert_resolver.by_name@.contains_key(n) ==> server_cert_resolver.by_name@[n].1 == pkcs8_der,')],
               spec='''
     ensures
-        r is Ok ==> r->Ok_0.tls@.client_verifier == *cert_verifier, // @OBL EndpointConfigBuilder::server_config::installs_the_given_client_verifier [C01] the server TLS configuration verifies the certificate of EVERY dialer with exactly the verifier it is given (client authentication through anemo's CertVerifier, which makes it mandatory)
+        r is Ok ==> r->Ok_0.tls@.client_verifier == *cert_verifier, // @OBL EndpointConfigBuilder::server_config::installs_the_given_client_verifier [C01,C14] the server TLS configuration verifies the certificate of EVERY dialer with exactly the verifier it is given (client authentication through anemo's CertVerifier, which makes it mandatory)
         r is Ok ==> r->Ok_0.tls@.versions =~= only_tls13(), // @OBL EndpointConfigBuilder::server_config::tls13_only [C01] TLS 1.3 only
         r is Ok ==> (forall|n: Seq<char>| r->Ok_0.tls@.certs.contains_key(n) ==> r->Ok_0.tls@.certs[n].1 == pkcs8_der), // @OBL EndpointConfigBuilder::server_config::one_key [C01] every certificate the listener can present is paired with the node's own private key
 ''')
-    t += C.fn(CFG, 'impl EndpointConfigBuilder :: fn build', 'EndpointConfigBuilder::build', ['C01', 'C03'], ret='r', rewrites=tyrw + [
+    t += C.fn(CFG, 'impl EndpointConfigBuilder :: fn build', 'EndpointConfigBuilder::build', ['C01', 'C03', 'C14'], ret='r', rewrites=tyrw + [
         dict(rule='X5', pattern='crate::crypto::construct_reset_key', repl='crypto_standin::construct_reset_key', optional=True),
         dict(rule='X5', pattern='crate::crypto::peer_id_from_certificate', repl='crypto_standin::peer_id_from_certificate', optional=True)],
               body_prefix='\n        broadcast use axiom_own_certificate;\n', spec='''
@@ -261,13 +261,13 @@ impl EndpointConfigBuilder {
         self.private_key is Some, self.server_name is Some,
     ensures
         r is Ok ==> r->Ok_0.peer_id == PeerId(public_of(self.private_key->Some_0)), // @OBL EndpointConfigBuilder::build::own_identity_is_own_key [C01] the node's own PeerId is the public key of the private key it was configured with
-        r is Ok ==> r->Ok_0.client_certificate == self_signed_cert(self.private_key->Some_0, self.server_name->Some_0@) && r->Ok_0.pkcs8_der == pkcs8_of(self.private_key->Some_0), // @OBL EndpointConfigBuilder::build::own_certificate_from_own_key [C01] the certificate it presents is self-signed with that key for the network's server name, and the handshake key is that key
-        r is Ok ==> r->Ok_0.server_name@ == self.server_name->Some_0@, // @OBL EndpointConfigBuilder::build::server_name [C01,C03] dials ask for the configured network name
+        r is Ok ==> r->Ok_0.client_certificate == self_signed_cert(self.private_key->Some_0, self.server_name->Some_0@) && r->Ok_0.pkcs8_der == pkcs8_of(self.private_key->Some_0), // @OBL EndpointConfigBuilder::build::own_certificate_from_own_key [C01,C14] the certificate it presents is self-signed with that key for the network's server name, and the handshake key is that key
+        r is Ok ==> r->Ok_0.server_name@ == self.server_name->Some_0@, // @OBL EndpointConfigBuilder::build::server_name [C01,C03,C14] dials ask for the configured network name
         r is Ok ==> r->Ok_0.quinn_client_config.tls@.verifier is Base && r->Ok_0.quinn_client_config.tls@.verifier->Base_0.server_names@.len() == 1
-            && r->Ok_0.quinn_client_config.tls@.verifier->Base_0.server_names@[0]@ == self.server_name->Some_0@, // @OBL EndpointConfigBuilder::build::client_verifier_is_cert_verifier [C01,C03] an unpinned dial verifies the answering certificate with anemo's CertVerifier for the network name
+            && r->Ok_0.quinn_client_config.tls@.verifier->Base_0.server_names@[0]@ == self.server_name->Some_0@, // @OBL EndpointConfigBuilder::build::client_verifier_is_cert_verifier [C01,C03,C14] an unpinned dial verifies the answering certificate with anemo's CertVerifier for the network name
         r is Ok ==> (forall|i: int| 0 <= i < r->Ok_0.quinn_server_config.tls@.client_verifier.server_names@.len() ==>
             r->Ok_0.quinn_server_config.tls@.client_verifier.server_names@[i]@ == self.server_name->Some_0@
-            || (self.alternate_server_name is Some && r->Ok_0.quinn_server_config.tls@.client_verifier.server_names@[i]@ == self.alternate_server_name->Some_0@)), // @OBL EndpointConfigBuilder::build::listener_verifier_names [C01] a listener verifies dialers' certificates with anemo's CertVerifier for the network name(s) and no other name
+            || (self.alternate_server_name is Some && r->Ok_0.quinn_server_config.tls@.client_verifier.server_names@[i]@ == self.alternate_server_name->Some_0@)), // @OBL EndpointConfigBuilder::build::listener_verifier_names [C01,C14] a listener verifies dialers' certificates with anemo's CertVerifier for the network name(s) and no other name
         r is Ok ==> r->Ok_0.wf() && r->Ok_0.quinn_client_config.tls@.chain == seq![r->Ok_0.client_certificate] && r->Ok_0.quinn_client_config.tls@.key == r->Ok_0.pkcs8_der, // @OBL EndpointConfigBuilder::build::dials_with_own_certificate [C01] the default client configuration presents that certificate and key
 ''')
     t += '}\nimpl EndpointConfig {\n'
@@ -277,7 +277,7 @@ impl EndpointConfigBuilder {
 ''')
     t += C.fn(CFG, 'impl EndpointConfig :: fn server_name', 'EndpointConfig::server_name', ['C01', 'C03'], ret='r', spec='''
     ensures
-        r@ == self.server_name@, // @OBL EndpointConfig::server_name::field [C01,C03] accessor
+        r@ == self.server_name@, // @OBL EndpointConfig::server_name::field [C01,C03,C14] accessor
 ''')
     t += C.fn(CFG, 'impl EndpointConfig :: fn client_config', 'EndpointConfig::client_config', ['C01', 'C03'], ret='r', spec='''
     ensures
@@ -321,9 +321,9 @@ impl Connecting {
         r == Connecting::new_outbound_spec(inner), // @OBL Connecting::new_outbound::origin [C05,C03] a dialed connection is Outbound
 ''')
     t += '}\nimpl Endpoint {\n'
-    t += C.fn(EP, 'impl Endpoint :: fn connect_with_client_config', 'Endpoint::connect_with_client_config', ['C03', 'C01'], ret='r', transforms=[eta], spec='''
+    t += C.fn(EP, 'impl Endpoint :: fn connect_with_client_config', 'Endpoint::connect_with_client_config', ['C03', 'C01', 'C14'], ret='r', transforms=[eta], spec='''
     ensures
-        r is Ok ==> r->Ok_0.inner.tls == config.tls && r->Ok_0.inner.addr == address && r->Ok_0.inner.server_name@ == self.config.server_name@ && r->Ok_0.origin == ConnectionOrigin::Outbound, // @OBL Endpoint::connect_with_client_config::dials_with_the_given_configuration [C03,C01] quinn is asked to dial the given address with exactly the TLS configuration handed in, asking for the network's server name; the pending connection is Outbound
+        r is Ok ==> r->Ok_0.inner.tls == config.tls && r->Ok_0.inner.addr == address && r->Ok_0.inner.server_name@ == self.config.server_name@ && r->Ok_0.origin == ConnectionOrigin::Outbound, // @OBL Endpoint::connect_with_client_config::dials_with_the_given_configuration [C03,C01,C14] quinn is asked to dial the given address with exactly the TLS configuration handed in, asking for the network's server name; the pending connection is Outbound
 ''')
     t += C.fn(EP, 'impl Endpoint :: fn connect', 'Endpoint::connect', ['C01', 'C03'], ret='r', spec='''
     ensures
